@@ -35,7 +35,7 @@ func (c15) Describe() engine.Info {
 		Rule: "class rescene: after the first scene has been judged it is changed (objects hidden with Y=0 or Y>=160, attributes, scroll, window, palettes, LCDC) during VBlank or with the LCD switched off at an arbitrary cycle, and the frames after the change are judged against the new scene alone; scenario = random scene within the statement's restrictions (LCD and background on, 8x8 objects, at most 10 per line, OAM ordered by X, WX 7..166): random or structured tile data, both tile maps, both addressing modes, SCX/SCY, window on/off at any position, 0..40 objects anywhere incl. partly outside each edge, flips, both object palettes, background priority, arbitrary BGP/OBP0/OBP1; LCD switched on at a random cycle of the frame loop; 2..4 frames; CPU parked or running a program. All 23,040 pixels of the last frame handed to the simulated display are compared. " +
 			"Oracle: reference compositor (low bit-plane = first byte; object priority by X then OAM index); the four shades must be four distinct greys of strictly decreasing brightness, consistent over the frame (the RGB values themselves are not prescribed). Signature = (features present: window, objects clipped at top/bottom/left/right, object palette 1, background-priority objects, signed addressing, flips).",
 		Assumptions:    []string{"the RGB values of the four shades are not prescribed; they are learnt per frame and must be consistent, grey and strictly darker with the shade number", "mid-frame register changes are outside the statement (the scene is constant)"},
-		RequiredProbes: []string{"scene_changed", "objects_hidden_by_y0", "frames_compared", "object_clipped_top", "object_clipped_left", "object_clipped_right", "object_clipped_bottom", "window_visible", "bg_priority_object", "obp1_object"},
+		RequiredProbes: []string{"scene_changed", "objects_hidden_by_y0", "frames_compared", "object_clipped_top", "object_clipped_left", "object_clipped_right", "object_clipped_bottom", "window_visible", "bg_priority_object", "obp1_object", "ly_store_while_drawing", "first_whole_frame_after_switch_on_judged"},
 		RealComponents: realComponents, StubComponents: stubComponents,
 	}
 }
@@ -53,6 +53,15 @@ func (c15) Generate(r *engine.Rand, index int, tier string) *engine.Scenario {
 		sc.SetP("off_for", int64(r.Range(1, 3000)))
 	}
 	sc.Cycles = 5 * 17556
+	if index%4 == 1 {
+		// stores to the read-only LY register and to registers of other units while frames are drawn:
+		// no video register, VRAM or OAM byte changes, so the scene stays what it was
+		for i, n := 0, r.Range(2, 12); i < n; i++ {
+			a := engine.Pick(r, []uint16{0xff44, 0xff44, 0xff44, 0xff0f, 0xff04, 0xff26})
+			sc.Events = append(sc.Events, engine.Event{At: uint64(r.Intn(int(sc.Cycles + 3*17556))), K: "bus_w", A: a, V: r.Byte(), S: "noise"})
+		}
+		sortEvents(sc.Events)
+	}
 	return sc
 }
 
@@ -262,7 +271,23 @@ func (c15) Execute(sc *engine.Scenario) *engine.Result {
 		}
 		return false
 	}
+	nei := 0
+	noise := func() {
+		for nei < len(sc.Events) && sc.Events[nei].At <= m.N {
+			ev := sc.Events[nei]
+			nei++
+			if ev.A == 0xff40 || (ev.A >= 0xff42 && ev.A <= 0xff4b && ev.A != 0xff44) || (ev.A >= 0x8000 && ev.A < 0xa000) || (ev.A >= 0xfe00 && ev.A < 0xff00) {
+				continue // never anything that is part of the scene (a minimised file may hold anything)
+			}
+			m.Write(ev.A, ev.V)
+			res.Fault("non_video_store")
+			if ev.A == 0xff44 && m.Read(0xff40)&0x80 != 0 {
+				res.Probe("ly_store_while_drawing")
+			}
+		}
+	}
 	m.OnCycle = func() {
+		noise()
 		if m.N == onAt+1 {
 			m.Write(0xff40, s.LCDC)
 			res.Fault("lcd_switch_on")
@@ -349,6 +374,7 @@ func (c15) Execute(sc *engine.Scenario) *engine.Result {
 		done := false
 		offAt := m.N + uint64(sc.P("off_at", 0))
 		m.OnCycle = func() {
+			noise()
 			if done {
 				return
 			}
